@@ -1,5 +1,9 @@
 (* KV/Refine — the model of the wallet database (KV/Model.v [step]) refines the abstract map of KV/Spec.v [spec_step].
-   [R]: the abstraction relation; [step_sim]: one step; [refines_abstract_map]: every operation sequence. *)
+   [R0]: the abstraction relation between a model state and a specification state; [sinv] (Spec.v): the specification's
+   own invariant (no orphans), kept by every specified step ([spec_step_sinv]); [R] = R0 and sinv;
+   [step_sim]: one step; [refines_abstract_map]: every operation sequence.
+   Nested buckets: [lookup_sim] (Bucket / FetchBucket / TopLevelBucket), [sim_new] (NewBucket), [delete_bucket_total] +
+   [Rview_remove] + [sim_delbucket] (recursive DeleteBucket), [names_sim] (both BucketNames), [dump_sim] (the dump). *)
 From Coq Require Import List ZArith Bool Lia Sorted Permutation.
 Import ListNotations.
 Require Import MW.KV.Model MW.KV.Proofs MW.KV.Proofs2 MW.KV.Proofs3 MW.KV.Proofs4 MW.KV.Proofs5 MW.KV.Proofs6 MW.KV.Spec.
@@ -489,10 +493,10 @@ Definition Rsl {A B} (P : A -> B -> Prop) (o : option (bool * A)) (o' : option (
 Definition Ropt {A B} (P : A -> B -> Prop) (a : option A) (b : option B) : Prop :=
   match a, b with Some x, Some y => P x y | None, None => True | _, _ => False end.
 
-(* [R st ss]: the committed store, decoded, is the committed content; the store as it would be after committing the open
+(* [R0 st ss]: the committed store, decoded, is the committed content; the store as it would be after committing the open
    batch is the write transaction's working copy; the store a read transaction captured is its snapshot content; bucket
    slots hold handles of the same buckets, iterator slots iterators with the same entries left *)
-Definition R (st : state) (ss : sstate) : Prop :=
+Definition R0 (st : state) (ss : sstate) : Prop :=
   idx_inv st /\
   Rview (sget (st_store st)) (s_committed ss) /\
   st_open st = s_isopen ss /\ st_upd st = s_inupd ss /\
@@ -522,24 +526,56 @@ Qed.
 Lemma F2_init {A B} (P : A -> B -> Prop) : forall n, Forall2 (Rsl P) (repeat None n) (repeat None n).
 Proof. induction n; cbn; constructor; auto. exact I. Qed.
 
-Lemma R_init : R init_state spec_init.
+Lemma R_init : R0 init_state spec_init.
 Proof.
   split; [apply idx_inv_init|]. split; [exact Rview_empty|]. split; [reflexivity|]. split; [reflexivity|].
   split; [exact I|]. split; [exact I|]. split; apply F2_init.
 Qed.
 
-(* results: listings are compared as sets (each element once), everything else literally *)
+(* results: listings are compared as sets (each element once), everything else literally; a dump as the set of its
+   lines (bucket label, entries as a set) *)
+Definition dent_equiv (a b : bytes * result (list (bytes * bytes))) : Prop :=
+  fst a = fst b /\ match snd a, snd b with
+                   | Ok l, Ok l' => Permutation l l'
+                   | Err e, Err e' => e = e'
+                   | _, _ => False
+                   end.
+Definition dump_equiv (l l' : list (bytes * result (list (bytes * bytes)))) : Prop :=
+  exists m, Permutation l m /\ Forall2 dent_equiv m l'.
+Lemma dent_equiv_refl : forall a, dent_equiv a a.
+Proof. intros [k [l|e]]; split; cbn; auto. Qed.
+Lemma dump_equiv_refl : forall l, dump_equiv l l.
+Proof.
+  intros l. exists l. split; [apply Permutation_refl|]. induction l; constructor; auto using dent_equiv_refl.
+Qed.
+Lemma dump_equiv_cons : forall a b l l', dent_equiv a b -> dump_equiv l l' -> dump_equiv (a :: l) (b :: l').
+Proof. intros a b l l' H [m [P F]]. exists (a :: m). split; [apply perm_skip; exact P|constructor; auto]. Qed.
+Lemma dump_equiv_app : forall l1 l1' l2 l2', dump_equiv l1 l1' -> dump_equiv l2 l2' -> dump_equiv (l1 ++ l2) (l1' ++ l2').
+Proof.
+  intros l1 l1' l2 l2' [m1 [P1 F1]] [m2 [P2 F2]]. exists (m1 ++ m2). split; [apply Permutation_app; auto|apply Forall2_app; auto].
+Qed.
+Lemma dump_equiv_perm_l : forall l0 l l', Permutation l0 l -> dump_equiv l l' -> dump_equiv l0 l'.
+Proof. intros l0 l l' P [m [P1 F]]. exists m. split; [eapply Permutation_trans; eauto|exact F]. Qed.
+Lemma dump_equiv_flat_map {A} : forall (f g : A -> list (bytes * result (list (bytes * bytes)))) xs ys,
+  Permutation xs ys -> (forall x, In x xs -> dump_equiv (f x) (g x)) -> dump_equiv (flat_map f xs) (flat_map g ys).
+Proof.
+  intros f g xs ys P H. apply (dump_equiv_perm_l _ (flat_map f ys)); [apply Permutation_flat_map; exact P|].
+  assert (H' : forall x, In x ys -> dump_equiv (f x) (g x)) by (intros x Hx; apply H; eapply Permutation_in; [apply Permutation_sym; exact P|exact Hx]).
+  clear H P. induction ys as [|y ys IH]; cbn [flat_map]; [apply dump_equiv_refl|].
+  apply dump_equiv_app; [apply H'; left; reflexivity|apply IH; intros x Hx; apply H'; right; exact Hx].
+Qed.
 Definition res_equiv (a b : res) : Prop :=
   match a, b with
   | REntries l, REntries l' => Permutation l l'
   | RNames l, RNames l' => Permutation l l'
+  | RDump l, RDump l' => dump_equiv l l'
   | _, _ => a = b
   end.
 Lemma res_equiv_refl : forall a, res_equiv a a.
-Proof. intros [] ; cbn; auto. Qed.
+Proof. intros [] ; cbn; auto using dump_equiv_refl. Qed.
 
-Definition sim_op (o : op) : Prop := forall st ss ss' r, R st ss -> op_bytes o -> spec_step ss o = (ss', Spec r) ->
-  R (fst (step st o)) ss' /\ res_equiv (snd (step st o)) r.
+Definition sim_op (o : op) : Prop := forall st ss ss' r, R0 st ss -> op_bytes o -> spec_step ss o = (ss', Spec r) ->
+  R0 (fst (step st o)) ss' /\ res_equiv (snd (step st o)) r.
 
 Ltac ropt_cases Hw :=
   match type of Hw with
@@ -547,9 +583,9 @@ Ltac ropt_cases Hw :=
   end.
 Ltac fin1 := first [assumption | exact I | reflexivity | congruence | apply F2_drop; assumption
                     | match goal with H : Rview _ ?c |- Rview _ ?c => exact H end
-                    | match goal with HR : R _ _ |- Ropt _ _ _ => apply HR end].
+                    | match goal with HR : R0 _ _ |- Ropt _ _ _ => apply HR end].
 Ltac finR Hidx' :=
-  split; [first [match goal with HR : R _ _ |- _ => exact HR end
+  split; [first [match goal with HR : R0 _ _ |- _ => exact HR end
                 |split; [exact Hidx'|]; cbn; repeat (split; [fin1|]); fin1]
          |reflexivity].
 
@@ -585,7 +621,7 @@ Qed.
 Definition Rtx (st : state) (ss : sstate) (w : bool) (vs : store) (ob : option batch) (c : content) : Prop :=
   Rview (sget (view_store vs ob)) c /\ keys_sorted vs /\ store_ok vs /\ obwf ob /\ obatch_ok ob /\
   (if w then vs = st_store st /\ exists b, ob = Some b /\ st_wtx st = Some b /\ s_pending ss = Some c else ob = None).
-Lemma tx_sim : forall st ss w, R st ss ->
+Lemma tx_sim : forall st ss w, R0 st ss ->
   match tx_view true st w, s_view ss w with
   | None, None => True
   | Some (vs, ob), Some c => Rtx st ss w vs ob c
@@ -598,7 +634,7 @@ Proof.
   - destruct (st_rtx st) as [s0|] eqn:Eb; destruct (s_snapshot ss) as [c|] eqn:Ec; cbn [Ropt] in Rr; try contradiction; [|exact I].
     unfold Rtx. split; [exact Rr|]. split; [exact I3|]. split; [exact J3|]. split; [exact I|]. split; [exact I|]. reflexivity.
 Qed.
-Lemma slot_sim : forall st ss src, R st ss ->
+Lemma slot_sim : forall st ss src, R0 st ss ->
   match slot_view true st src, s_slot ss src with
   | None, None => True
   | Some (w, h, vs, ob), Some (w', p, c) => w = w' /\ hnd h p /\ Rtx st ss w vs ob c
@@ -624,16 +660,16 @@ Proof.
   apply m_get_del_other. apply beqb_false_iff. exact E.
 Qed.
 
-(* R after a write of the open write transaction: only the batch / the working copy changed *)
-Lemma R_write : forall st ss b' c', R st ss -> idx_inv (with_batch st (Some b')) -> st_wtx st <> None ->
-  Rview (vw (st_store st) b') c' -> R (with_batch st (Some b')) (s_with_pending ss (Some c')).
+(* R0 after a write of the open write transaction: only the batch / the working copy changed *)
+Lemma R_write : forall st ss b' c', R0 st ss -> idx_inv (with_batch st (Some b')) -> st_wtx st <> None ->
+  Rview (vw (st_store st) b') c' -> R0 (with_batch st (Some b')) (s_with_pending ss (Some c')).
 Proof.
   intros st ss b' c' [_ [Rc [Ro [Ru [Rw [Rr [Rb Ri]]]]]]] Hidx' Hne HV.
   split; [exact Hidx'|]. cbn. repeat (split; [assumption|]). assumption.
 Qed.
 
-Lemma R_same_batch : forall st ss b, R st ss -> st_wtx st = Some b -> idx_inv (with_batch st (Some b)) ->
-  R (with_batch st (Some b)) ss.
+Lemma R_same_batch : forall st ss b, R0 st ss -> st_wtx st = Some b -> idx_inv (with_batch st (Some b)) ->
+  R0 (with_batch st (Some b)) ss.
 Proof.
   intros st ss b [_ [Rc [Ro [Ru [Rw [Rr [Rb Ri]]]]]]] E Hidx'. rewrite E in Rw.
   split; [exact Hidx'|]. cbn. repeat (split; [assumption|]). assumption.
@@ -673,14 +709,14 @@ Proof.
     intros key. rewrite <- Hpath. apply vw_clear_kv; auto. eapply hnd_path_bytes; eauto.
 Qed.
 
-Lemma R_set_bs : forall st ss n x x', R st ss -> Rsl hnd x x' -> idx_inv (with_bs st (set_nth n x (st_bs st))) ->
-  R (with_bs st (set_nth n x (st_bs st))) (s_with_bs ss (set_nth n x' (s_bs ss))).
+Lemma R_set_bs : forall st ss n x x', R0 st ss -> Rsl hnd x x' -> idx_inv (with_bs st (set_nth n x (st_bs st))) ->
+  R0 (with_bs st (set_nth n x (st_bs st))) (s_with_bs ss (set_nth n x' (s_bs ss))).
 Proof.
   intros st ss n x x' [_ [Rc [Ro [Ru [Rw [Rr [Rb Ri]]]]]]] Hx Hidx'.
   split; [exact Hidx'|]. cbn. repeat (split; [assumption|]). split; [apply F2_set; assumption|assumption].
 Qed.
-Lemma R_set_is : forall st ss n x x', R st ss -> Rsl Riter x x' -> idx_inv (with_is st (set_nth n x (st_is st))) ->
-  R (with_is st (set_nth n x (st_is st))) (s_with_is ss (set_nth n x' (s_is ss))).
+Lemma R_set_is : forall st ss n x x', R0 st ss -> Rsl Riter x x' -> idx_inv (with_is st (set_nth n x (st_is st))) ->
+  R0 (with_is st (set_nth n x (st_is st))) (s_with_is ss (set_nth n x' (s_is ss))).
 Proof.
   intros st ss n x x' [_ [Rc [Ro [Ru [Rw [Rr [Rb Ri]]]]]]] Hx Hidx'.
   split; [exact Hidx'|]. cbn. repeat (split; [assumption|]). apply F2_set; assumption.
@@ -761,12 +797,12 @@ Proof.
     { rewrite (proj1 Rc [name]). unfold bkf, sget. fold key. tauto. }
     assert (Hc2 : has_bucket c [name] = true <-> vw (st_store st) b key <> None).
     { rewrite (proj1 Rw [name]). unfold bkf. fold key. tauto. }
-    assert (Hcreate : R (fst (with_bs (with_batch st (Some (batch_put b key name))) (set_nth dst (Some (true, mkHandle (path_of [name]) 1)) (st_bs st)), ROk))
+    assert (Hcreate : R0 (fst (with_bs (with_batch st (Some (batch_put b key name))) (set_nth dst (Some (true, mkHandle (path_of [name]) 1)) (st_bs st)), ROk))
                         (s_with_bs (s_with_pending ss (Some (add_bucket c [name]))) (set_nth dst (Some (true, [name])) (s_bs ss))) ->
-                      R (fst (with_bs (with_batch st (Some (batch_put b key name))) (set_nth dst (Some (true, mkHandle (path_of [name]) 1)) (st_bs st)), ROk))
+                      R0 (fst (with_bs (with_batch st (Some (batch_put b key name))) (set_nth dst (Some (true, mkHandle (path_of [name]) 1)) (st_bs st)), ROk))
                         (s_with_bs (s_with_pending ss (Some (add_bucket c [name]))) (set_nth dst (Some (true, [name])) (s_bs ss)))) by auto.
     assert (Hmk : idx_inv (with_bs (with_batch st (Some (batch_put b key name))) (set_nth dst (Some (true, mkHandle (path_of [name]) 1)) (st_bs st))) ->
-                  R (with_bs (with_batch st (Some (batch_put b key name))) (set_nth dst (Some (true, mkHandle (path_of [name]) 1)) (st_bs st)))
+                  R0 (with_bs (with_batch st (Some (batch_put b key name))) (set_nth dst (Some (true, mkHandle (path_of [name]) 1)) (st_bs st)))
                     (s_with_bs (s_with_pending ss (Some (add_bucket c [name]))) (set_nth dst (Some (true, [name])) (s_bs ss)))).
     { intros Hi'. destruct HR as [_ [Rc' [Ro [Ru [_ [Rr [Rb Ri]]]]]]]. split; [exact Hi'|]. cbn.
       split; [assumption|]. split; [assumption|]. split; [assumption|].
@@ -820,14 +856,566 @@ Proof.
     inversion Hsp; subst. cbn [fst snd] in *. split; [|reflexivity]. apply R_set_is; auto; exact I.
 Qed.
 
+(* ------------------------------------------------------------------ nested buckets: the specification's helpers *)
+Lemma is_prefix_iff : forall q p, is_prefix q p = true <-> exists r, p = q ++ r.
+Proof.
+  induction q as [|a q IH]; intros p; cbn [is_prefix].
+  - split; [intros _; exists p; reflexivity|reflexivity].
+  - destruct p as [|b p]; [split; [discriminate|intros [r E]; discriminate]|].
+    rewrite andb_true_iff, beqb_true_iff, IH. split.
+    + intros [-> [r ->]]. exists r. reflexivity.
+    + intros [r E]. cbn in E. inversion E. eauto.
+Qed.
+Lemma is_prefix_app : forall q r, is_prefix q (q ++ r) = true.
+Proof. intros. apply is_prefix_iff. eauto. Qed.
+Lemma child_of_iff : forall p q n, child_of p q = Some n <-> q = p ++ [n].
+Proof.
+  induction p as [|a p IH]; intros q n; cbn [child_of app].
+  - destruct q as [|x [|y q]]; split; intros H; try discriminate; inversion H; reflexivity.
+  - destruct q as [|b q]; [split; discriminate|]. destruct (beqb a b) eqn:E.
+    + apply beqb_true_iff in E. subst b. rewrite IH. split; [intros ->; reflexivity|intros H; inversion H; reflexivity].
+    + split; [discriminate|]. intros H. inversion H. subst. rewrite beqb_refl in E. discriminate.
+Qed.
+Lemma dedup_in : forall l x, In x (dedup l) <-> In x l.
+Proof.
+  induction l as [|y l IH]; intros x; cbn [dedup]; [tauto|]. destruct (existsb (beqb y) l) eqn:E.
+  - rewrite IH. cbn [In]. split; [auto|]. intros [<-|H]; [apply existsb_beqb_in; exact E|exact H].
+  - cbn [In]. rewrite IH. tauto.
+Qed.
+Lemma dedup_nodup : forall l, NoDup (dedup l).
+Proof.
+  induction l as [|y l IH]; cbn [dedup]; [constructor|]. destruct (existsb (beqb y) l) eqn:E; [exact IH|].
+  constructor; [|exact IH]. rewrite dedup_in. intros H. apply existsb_beqb_in in H. congruence.
+Qed.
+Lemma children_iff : forall c p n, In n (children c p) <-> has_bucket c (p ++ [n]) = true.
+Proof.
+  intros c p n. unfold children. rewrite dedup_in, in_flat_map, has_bucket_iff. split.
+  - intros [q [Hq Hn]]. destruct (child_of p q) as [m|] eqn:E; [|destruct Hn]. destruct Hn as [<-|[]].
+    apply child_of_iff in E. subst q. exact Hq.
+  - intros H. exists (p ++ [n]). split; [exact H|]. rewrite (proj2 (child_of_iff p (p ++ [n]) n) eq_refl). left. reflexivity.
+Qed.
+Lemma has_bucket_remove : forall c q p, has_bucket (remove_tree c q) p = true <-> has_bucket c p = true /\ is_prefix q p = false.
+Proof.
+  intros c q p. rewrite !has_bucket_iff. unfold remove_tree. cbn [c_bk]. rewrite filter_In, negb_true_iff. tauto.
+Qed.
+Lemma entries_remove : forall c q p, entries (remove_tree c q) p = if is_prefix q p then [] else entries c p.
+Proof.
+  intros c q p. unfold entries, remove_tree. cbn [c_kv]. induction (c_kv c) as [|[q0 m] l IH]; cbn [filter kv_lookup fst].
+  - destruct (is_prefix q p); reflexivity.
+  - destruct (is_prefix q q0) eqn:E0; cbn [negb kv_lookup].
+    + rewrite IH. destruct (is_prefix q p) eqn:Ep; [reflexivity|]. destruct (path_eqb p q0) eqn:Epq; [|reflexivity].
+      apply path_eqb_iff in Epq. congruence.
+    + destruct (path_eqb p q0) eqn:Epq.
+      * apply path_eqb_iff in Epq. subst q0. rewrite E0. reflexivity.
+      * exact IH.
+Qed.
+Lemma height_ge : forall c q ms, has_bucket c (q ++ ms) = true -> (length ms <= height c q)%nat.
+Proof.
+  intros c q ms H. apply has_bucket_iff in H. unfold height.
+  assert (F : Forall (fun k => k <= list_max (map (fun p => if is_prefix q p then length p - length q else 0) (c_bk c)))%nat
+                (map (fun p => if is_prefix q p then length p - length q else 0)%nat (c_bk c))) by (apply list_max_le; lia).
+  rewrite Forall_forall in F. specialize (F (length ms)). apply F. apply in_map_iff. exists (q ++ ms). split; [|exact H].
+  rewrite is_prefix_app, app_length. lia.
+Qed.
+Lemma closed_prefix : forall c, cclosed c -> forall r q, q <> [] -> has_bucket c (q ++ r) = true -> has_bucket c q = true.
+Proof.
+  intros c [H1 _]. induction r as [|x r IH] using rev_ind; intros q Hq H; [rewrite app_nil_r in H; exact H|].
+  rewrite app_assoc in H. apply H1 in H; [|intros E; apply app_eq_nil in E; destruct E; congruence]. apply IH; auto.
+Qed.
+Lemma closed_chain : forall f c, Rview f c -> cclosed c -> forall ms q, q <> [] -> has_bucket c (q ++ ms) = true -> chain f q ms.
+Proof.
+  intros f c [R1 _] Hc. induction ms as [|m ms IH]; intros q Hq H; cbn [chain]; [exact I|].
+  replace (q ++ m :: ms) with ((q ++ [m]) ++ ms) in H by (rewrite <- app_assoc; reflexivity).
+  assert (Hm : has_bucket c (q ++ [m]) = true) by (apply (closed_prefix c Hc ms); [destruct q; discriminate|exact H]).
+  split; [apply R1 in Hm; apply Hm|]. apply IH; [destruct q; discriminate|exact H].
+Qed.
+
+(* the invariant of the specification's states *)
+Lemma m_get_nonempty {V} : forall k (m : amap V) v, m_get k m = Some v -> m <> [].
+Proof. intros k m v H E. subst m. discriminate. Qed.
+Lemma cclosed_empty : cclosed empty_content.
+Proof. split; [intros p n H; discriminate|intros p H; exfalso; apply H; reflexivity]. Qed.
+Lemma cclosed_add : forall c p n, cclosed c -> (p = [] \/ has_bucket c p = true) -> cclosed (add_bucket c (p ++ [n])).
+Proof.
+  intros c p n [H1 H2] Hp. split.
+  - intros p' n' H Hne. apply has_bucket_add. apply has_bucket_add in H. destruct H as [H|H].
+    + left. apply (H1 p' n'); auto.
+    + apply app_inj_tail in H. destruct H as [-> _]. left. destruct Hp; [congruence|assumption].
+  - intros p' H. rewrite entries_add in H. apply has_bucket_add. left. apply H2. exact H.
+Qed.
+Lemma cclosed_set : forall c p m, cclosed c -> (m <> [] -> has_bucket c p = true) -> cclosed (set_entries c p m).
+Proof.
+  intros c p m [H1 H2] Hm. split.
+  - intros p' n'. rewrite !has_bucket_set. apply H1.
+  - intros p'. rewrite entries_set, has_bucket_set. destruct (path_eqb p' p) eqn:E; [|apply H2].
+    apply path_eqb_iff in E. subst p'. exact Hm.
+Qed.
+Lemma cclosed_remove : forall c q, cclosed c -> cclosed (remove_tree c q).
+Proof.
+  intros c q [H1 H2]. split.
+  - intros p n H Hne. apply has_bucket_remove in H. destruct H as [H Hp]. apply has_bucket_remove. split; [apply (H1 p n); auto|].
+    destruct (is_prefix q p) eqn:E; [|reflexivity]. apply is_prefix_iff in E. destruct E as [r ->].
+    rewrite <- app_assoc, is_prefix_app in Hp. discriminate.
+  - intros p. rewrite entries_remove. destruct (is_prefix q p) eqn:E; [intros H; exfalso; apply H; reflexivity|].
+    intros H. apply has_bucket_remove. split; [apply H2; exact H|exact E].
+Qed.
+Lemma m_del_nil {V} : forall k (m : amap V), m_del k m <> [] -> m <> [].
+Proof. intros k m H E. subst m. apply H. reflexivity. Qed.
+Lemma s_slot_w : forall ss src p c, s_slot ss src = Some (true, p, c) -> s_pending ss = Some c.
+Proof.
+  intros ss src p c H. unfold s_slot in H. destruct (get_slot src (s_bs ss)) as [[w q]|]; [|discriminate].
+  destruct (s_view ss w) as [c'|] eqn:E; [|discriminate]. inversion H; subst. exact E.
+Qed.
+Lemma sinv_pending : forall ss c, sinv ss -> cclosed c -> sinv (s_with_pending ss (Some c)).
+Proof. intros ss c [H1 [H2 H3]] Hc. split; [exact H1|]. split; [exact Hc|exact H3]. Qed.
+Lemma sinv_lookup : forall ss w c dst p ss' r, sinv ss -> s_lookup ss w c dst p = (ss', Spec r) -> sinv ss'.
+Proof.
+  intros ss w c dst p ss' r H Hs. unfold s_lookup, s_put_slot in Hs.
+  destruct (has_bucket c p); [inversion Hs; subst; exact H|].
+  destruct (w && has_bucket (s_committed ss) p); inversion Hs; subst; exact H.
+Qed.
+Lemma sinv_init : sinv spec_init.
+Proof. split; [exact cclosed_empty|split; exact I]. Qed.
+
+Lemma spec_step_sinv : forall ss o ss' r, sinv ss -> spec_step ss o = (ss', Spec r) -> sinv ss'.
+Proof.
+  intros ss o ss' r H Hs. pose proof H as [H1 [H2 H3]].
+  destruct o; cbn [spec_step] in Hs.
+  - (* OBegin *) destruct w.
+    + destruct (s_pending ss); [inversion Hs; subst; exact H|]. destruct (s_isopen ss); inversion Hs; subst; [|exact H].
+      split; [exact H1|split; [exact H1|exact H3]].
+    + destruct (s_snapshot ss); [inversion Hs; subst; exact H|]. destruct (s_isopen ss); inversion Hs; subst; [|exact H].
+      split; [exact H1|split; [exact H2|exact H1]].
+  - (* OCommit *) destruct (s_pending ss) as [c|]; [|inversion Hs; subst; exact H].
+    destruct (s_inupd ss); inversion Hs; subst; [exact H|]. split; [exact H2|split; [exact I|exact H3]].
+  - (* ORollback *) destruct (s_pending ss) as [c|]; [|inversion Hs; subst; exact H].
+    destruct (s_inupd ss); inversion Hs; subst; [exact H|]. split; [exact H1|split; [exact I|exact H3]].
+  - (* OREnd *) destruct (s_snapshot ss); inversion Hs; subst; [|exact H]. split; [exact H1|split; [exact H2|exact I]].
+  - (* OUBegin *) destruct (s_pending ss); [inversion Hs; subst; exact H|]. destruct (s_isopen ss); inversion Hs; subst; [|exact H].
+    split; [exact H1|split; [exact H1|exact H3]].
+  - (* OUEnd *) destruct (s_pending ss) as [c|]; [|inversion Hs; subst; exact H].
+    destruct (s_inupd ss); [destruct fail|]; inversion Hs; subst; try exact H.
+    + split; [exact H1|split; [exact I|exact H3]].
+    + split; [exact H2|split; [exact I|exact H3]].
+  - (* OClose *) destruct (s_pending ss); destruct (s_snapshot ss); try (inversion Hs; subst; exact H).
+    destruct (s_isopen ss); inversion Hs; subst; exact H.
+  - (* OReopen *) destruct (s_pending ss); destruct (s_snapshot ss); inversion Hs; subst; exact H.
+  - (* ODump *) destruct (s_isopen ss); inversion Hs; subst; exact H.
+  - (* OTop *) destruct (s_view ss w); [eapply sinv_lookup; eauto|inversion Hs; subst; exact H].
+  - (* OCreateTop *) destruct (s_pending ss) as [c|] eqn:Ep; [|inversion Hs; subst; exact H].
+    destruct (negb (is_valid_bucket_name name)); [inversion Hs; subst; exact H|].
+    destruct (has_bucket (s_committed ss) [name] && has_bucket c [name]); inversion Hs; subst; [exact H|].
+    split; [exact H1|split; [|exact H3]]. apply (cclosed_add c [] name); auto.
+  - (* ODeleteTop *) destruct (s_pending ss); inversion Hs; subst; exact H.
+  - (* OTxNames *) destruct (s_view ss w); inversion Hs; subst; exact H.
+  - (* OFetch *) destruct (s_view ss w); [|inversion Hs; subst; exact H].
+    destruct (get_slot src (s_bs ss)) as [[w' p]|]; [eapply sinv_lookup; eauto|inversion Hs; subst; exact H].
+  - (* ONew *) destruct (s_slot ss src) as [[[[|] p] c]|] eqn:Es; try (inversion Hs; subst; exact H).
+    apply s_slot_w in Es. rewrite Es in H2. cbn [ocl] in H2.
+    destruct (negb (is_valid_bucket_name name)); [inversion Hs; subst; exact H|].
+    destruct (has_bucket c p) eqn:Ehp; cbn [negb] in Hs; [|discriminate].
+    destruct (has_bucket c (p ++ [name])); [destruct (has_bucket (s_committed ss) (p ++ [name])); inversion Hs; subst; exact H|].
+    inversion Hs; subst. split; [exact H1|split; [|exact H3]]. apply cclosed_add; auto.
+  - (* OBucket *) destruct (s_slot ss src) as [[[w p] c]|]; [eapply sinv_lookup; eauto|inversion Hs; subst; exact H].
+  - (* ODelBucket *) destruct (s_slot ss src) as [[[[|] p] c]|] eqn:Es; try (inversion Hs; subst; exact H).
+    apply s_slot_w in Es. rewrite Es in H2. cbn [ocl] in H2.
+    destruct (delete_fuel <=? height c (p ++ [name]))%nat; inversion Hs; subst.
+    apply sinv_pending; [exact H|]. apply cclosed_remove. exact H2.
+  - (* ONames *) destruct (s_slot ss src) as [[[w p] c]|]; inversion Hs; subst; exact H.
+  - (* OPut *) destruct (s_slot ss src) as [[[[|] p] c]|] eqn:Es; try (inversion Hs; subst; exact H).
+    apply s_slot_w in Es. rewrite Es in H2. cbn [ocl] in H2.
+    destruct v as [|v0 v]; [inversion Hs; subst; exact H|]. destruct k as [|k0 k]; [inversion Hs; subst; exact H|].
+    destruct (has_bucket c p) eqn:Ehp; inversion Hs; subst. apply sinv_pending; [exact H|]. apply cclosed_set; auto.
+  - (* ODel *) destruct (s_slot ss src) as [[[[|] p] c]|] eqn:Es; try (inversion Hs; subst; exact H).
+    apply s_slot_w in Es. rewrite Es in H2. cbn [ocl] in H2.
+    destruct k as [|k0 k]; inversion Hs; subst; [exact H|]. apply sinv_pending; [exact H|]. apply cclosed_set; auto.
+    intros Hm. apply H2. eapply m_del_nil. exact Hm.
+  - (* OGet *) destruct (s_slot ss src) as [[[w p] c]|]; [|inversion Hs; subst; exact H].
+    destruct k; [inversion Hs; subst; exact H|]. destruct (m_get _ _); inversion Hs; subst; exact H.
+  - (* OClear *) destruct (s_slot ss src) as [[[[|] p] c]|] eqn:Es; try (inversion Hs; subst; exact H).
+    apply s_slot_w in Es. rewrite Es in H2. cbn [ocl] in H2. inversion Hs; subst.
+    apply sinv_pending; [exact H|]. apply cclosed_set; auto.
+  - (* OPfx *) destruct (s_slot ss src) as [[[w p'] c]|]; inversion Hs; subst; exact H.
+  - (* OIter *) destruct (s_slot ss src) as [[[w p] c]|]; inversion Hs; subst; exact H.
+  - (* OSeek *) destruct (get_slot i (s_is ss)) as [[w it]|]; inversion Hs; subst; exact H.
+  - (* ONext *) destruct (get_slot i (s_is ss)) as [[w it]|]; inversion Hs; subst; exact H.
+  - (* ORelease *) destruct (get_slot i (s_is ss)) as [[w it]|]; inversion Hs; subst; exact H.
+  - (* OBytesPrefix *) destruct (bytes_prefix p) as [a l]. inversion Hs; subst. exact H.
+Qed.
+
+(* ------------------------------------------------------------------ nested buckets: look-up, creation *)
+Definition sim_op' (o : op) : Prop := forall st ss ss' r, R0 st ss -> sinv ss -> op_bytes o -> spec_step ss o = (ss', Spec r) ->
+  R0 (fst (step st o)) ss' /\ res_equiv (snd (step st o)) r.
+
+Lemma lookup_sim : forall st ss w vs ob c dst p oh ss' r,
+  R0 st ss -> Rtx st ss w vs ob c ->
+  (forall h, oh = Some h -> hnd h p) ->
+  (oh <> None <-> (names_ok p /\ bkf (sget vs) p) \/ (names_ok p /\ bkf (sget (view_store vs ob)) p)) ->
+  idx_inv (fst (put_handle st w dst oh)) ->
+  s_lookup ss w c dst p = (ss', Spec r) ->
+  R0 (fst (put_handle st w dst oh)) ss' /\ res_equiv (snd (put_handle st w dst oh)) r.
+Proof.
+  intros st ss w vs ob c dst p oh ss' r HR Ht Hh Hoh Hidx' Hsp.
+  pose proof HR as [_ [Rc _]]. destruct Ht as [HV [_ [_ [_ [_ Hw]]]]]. pose proof HV as [R1 _].
+  unfold s_lookup, s_put_slot in Hsp. destruct (has_bucket c p) eqn:Ehb.
+  - apply R1 in Ehb. assert (Hne : oh <> None) by (apply Hoh; right; exact Ehb).
+    destruct oh as [h|]; [|congruence]. inversion Hsp; subst. cbn [put_handle fst snd] in *. split; [|reflexivity].
+    apply R_set_bs; auto. split; [reflexivity|apply Hh; reflexivity].
+  - destruct oh as [h|].
+    + exfalso. assert (Hx : Some h <> None) by discriminate. apply Hoh in Hx. destruct Hx as [[Hn Hb]|Hx].
+      * destruct w.
+        -- destruct Hw as [-> _]. assert (X : has_bucket (s_committed ss) p = true) by (apply Rc; split; [exact Hn|exact Hb]).
+           rewrite X in Hsp. cbn in Hsp. discriminate.
+        -- subst ob. cbn [view_store] in R1. assert (X : has_bucket c p = true) by (apply R1; split; [exact Hn|exact Hb]). congruence.
+      * assert (X : has_bucket c p = true) by (apply R1; exact Hx). congruence.
+    + destruct (w && has_bucket (s_committed ss) p); [discriminate|]. inversion Hsp; subst.
+      cbn [put_handle fst snd] in *. split; [|reflexivity]. apply R_set_bs; auto; exact I.
+Qed.
+
+Lemma names_ok_snoc_iff : forall p name, names_ok p -> bytes_ok name ->
+  (names_ok (p ++ [name]) <-> is_valid_bucket_name name = true).
+Proof.
+  intros p name Hn Hb. split.
+  - intros [_ [Hv _]]. apply Forall_app in Hv. destruct Hv as [_ Hv]. inversion Hv; auto.
+  - intros Hv. apply names_ok_snoc; auto. apply Hn.
+Qed.
+
+Lemma sim_bucket : forall dst src name, sim_op (OBucket dst src name).
+Proof.
+  intros dst src name st ss ss' r HR Hob Hsp. pose proof HR as [Hidx _].
+  pose proof (step_idx_inv true st _ Hidx Hob) as Hidx'. unfold step in *. cbn [spec_step] in Hsp. unfold step_gen in *.
+  cbn [op_bytes] in Hob. pose proof (slot_sim st ss src HR) as Hs.
+  destruct (slot_view true st src) as [[[[w h] vs] ob]|]; destruct (s_slot ss src) as [[[w' p] c]|]; try contradiction;
+    [|inversion Hsp; subst; split; [exact HR|reflexivity]].
+  destruct Hs as [<- [Hh Ht]]. pose proof Ht as [_ [_ [Hok [Hwf [Hbok _]]]]].
+  apply (lookup_sim st ss w vs ob c dst (p ++ [name]) (bucket vs ob h name)); auto.
+  - intros h' E. apply (bucket_some_hnd vs ob h p name h' Hok Hbok Hh E).
+  - destruct Hh as [Hn [Hp Hd]]. rewrite (bucket_lookup_char vs ob h p name Hwf Hn Hp Hd). unfold child_exists, bkf, sget.
+    rewrite (names_ok_snoc_iff p name Hn Hob). tauto.
+Qed.
+
+Lemma sim_fetch : forall w dst src, sim_op (OFetch w dst src).
+Proof.
+  intros w dst src st ss ss' r HR Hob Hsp. pose proof HR as [Hidx [_ [_ [_ [_ [_ [Rb _]]]]]]].
+  pose proof (step_idx_inv true st _ Hidx Hob) as Hidx'. unfold step in *. cbn [spec_step] in Hsp. unfold step_gen in *.
+  pose proof (tx_sim st ss w HR) as Ht.
+  assert (Hg : @Rsl handle path hnd (get_slot src (st_bs st)) (@get_slot (bool * path) src (s_bs ss))) by exact (F2_get hnd src _ _ Rb).
+  unfold Rsl in Hg.
+  destruct (tx_view true st w) as [[vs ob]|]; destruct (s_view ss w) as [c|]; try contradiction;
+    [|inversion Hsp; subst; split; [exact HR|reflexivity]].
+  destruct (get_slot src (st_bs st)) as [[w1 h]|]; destruct (get_slot src (s_bs ss)) as [[w2 p]|]; try contradiction;
+    [|inversion Hsp; subst; split; [exact HR|reflexivity]].
+  destruct Hg as [_ Hh]. pose proof Ht as [_ [_ [Hok [Hwf [Hbok _]]]]]. pose proof Hh as [Hn [Hp Hd]].
+  assert (Ef : fetch_bucket vs ob h = if bucket_exists vs ob (index_key (path_of p)) then Some (mkHandle (path_of p) (h_depth h)) else None).
+  { unfold fetch_bucket. rewrite Hp, join_split_path by (apply Hn). reflexivity. }
+  apply (lookup_sim st ss w vs ob c dst p (fetch_bucket vs ob h)); auto.
+  - intros h' E. rewrite Ef in E. destruct (bucket_exists vs ob (index_key (path_of p))); inversion E; subst h'.
+    split; [exact Hn|]. split; [reflexivity|exact Hd].
+  - rewrite Ef. pose proof (bucket_exists_char vs ob (index_key (path_of p)) Hwf) as Hc. unfold bkf, sget.
+    destruct (bucket_exists vs ob (index_key (path_of p))).
+    + split; [intros _|discriminate]. destruct (proj1 Hc eq_refl) as [X|X]; [left|right]; auto.
+    + split; [congruence|]. intros X. exfalso. assert (Y : false = true) by (apply Hc; tauto). discriminate.
+Qed.
+
+Lemma sim_new : forall dst src name, sim_op (ONew dst src name).
+Proof.
+  intros dst src name st ss ss' r HR Hob Hsp. pose proof HR as [Hidx [Rc _]].
+  pose proof (step_idx_inv true st _ Hidx Hob) as Hidx'. unfold step in *. cbn [spec_step] in Hsp. unfold step_gen in *.
+  cbn [op_bytes] in Hob. pose proof (slot_sim st ss src HR) as Hs.
+  destruct (slot_view true st src) as [[[[w h] vs] ob]|]; destruct (s_slot ss src) as [[[w' p] c]|]; try contradiction;
+    [|inversion Hsp; subst; split; [exact HR|reflexivity]].
+  destruct Hs as [<- [Hh [HV [Hsort [Hok [Hwf [Hbok Hw]]]]]]]. destruct w.
+  2:{ subst ob. cbn [new_bucket store_batch fst snd] in *. inversion Hsp; subst. split; [exact HR|reflexivity]. }
+  destruct Hw as [-> [b [-> [Ewtx Epend]]]]. cbn [view_store] in HV. pose proof Hh as [Hn [Hpath Hdep]].
+  assert (Hne : st_wtx st <> None) by congruence.
+  unfold new_bucket in *. destruct (is_valid_bucket_name name) eqn:Ev; cbn [negb] in Hsp.
+  2:{ assert (Es : sub_bucket h name = Err EInvalidBucketName) by (unfold sub_bucket; rewrite Ev; reflexivity).
+      rewrite Es in *. cbn [store_batch fst snd] in *. inversion Hsp; subst. same HR Hidx'. }
+  rewrite (sub_bucket_eval h p name Hn Hpath Hdep Ev) in *. cbn [h_path] in *.
+  set (q := p ++ [name]) in *. set (sub := mkHandle (path_of q) (S (length p))) in *.
+  assert (Hnq : names_ok q) by (apply names_ok_snoc_iff; auto).
+  assert (Hsub : hnd sub q) by (split; [exact Hnq|split; [reflexivity|unfold q; rewrite app_length; cbn; lia]]).
+  destruct (has_bucket c p) eqn:Ehp; cbn [negb] in Hsp; [|discriminate].
+  unfold create_index in *. set (key := index_key (path_of q)) in *.
+  destruct Hidx as [[Isort [Iwf _]] [Iok [Ibok _]]]. rewrite Ewtx in Iwf, Ibok. cbn [obwf obatch_ok] in Iwf, Ibok.
+  assert (Hc1 : has_bucket (s_committed ss) q = true <-> s_get key (st_store st) <> None).
+  { rewrite (proj1 Rc q). unfold bkf, sget. fold key. tauto. }
+  assert (Hc2 : has_bucket c q = true <-> vw (st_store st) b key <> None).
+  { rewrite (proj1 HV q). unfold bkf. fold key. tauto. }
+  assert (Hmk : idx_inv (with_bs (with_batch st (Some (batch_put b key name))) (set_nth dst (Some (true, sub)) (st_bs st))) ->
+                R0 (with_bs (with_batch st (Some (batch_put b key name))) (set_nth dst (Some (true, sub)) (st_bs st)))
+                  (s_with_bs (s_with_pending ss (Some (add_bucket c q))) (set_nth dst (Some (true, q)) (s_bs ss)))).
+  { intros Hi'. destruct HR as [_ [Rc' [Ro [Ru [_ [Rr [Rb Ri]]]]]]]. split; [exact Hi'|]. cbn.
+    split; [assumption|]. split; [assumption|]. split; [assumption|].
+    split; [apply (Rview_create (vw (st_store st) b) _ c q name HV Hnq); intros k; apply vw_put|].
+    split; [assumption|]. split; [|assumption]. apply F2_set; [assumption|]. split; [reflexivity|exact Hsub]. }
+  destruct (s_get key (st_store st)) as [x|] eqn:Es.
+  - assert (X1 : has_bucket (s_committed ss) q = true) by (apply Hc1; discriminate). rewrite X1 in Hsp.
+    assert (Hv : vw (st_store st) b key = match batch_view b key with Some o => o | None => Some x end).
+    { unfold vw. rewrite commit_get by apply Iwf. rewrite Es. reflexivity. }
+    unfold batch_view in Hv.
+    destruct (batch_get_shape b key) as [E|[E|[v E]]]; rewrite E in *; cbn [snd fst store_batch] in *.
+    + assert (X2 : has_bucket c q = false).
+      { destruct (has_bucket c q) eqn:Eh; [|reflexivity]. exfalso. apply (proj1 Hc2 eq_refl). congruence. }
+      rewrite X2 in Hsp. inversion Hsp; subst. split; [|reflexivity]. apply Hmk. exact Hidx'.
+    + assert (X2 : has_bucket c q = true) by (apply Hc2; rewrite Hv; discriminate).
+      rewrite X2 in Hsp. inversion Hsp; subst. same HR Hidx'.
+    + assert (X2 : has_bucket c q = true) by (apply Hc2; rewrite Hv; discriminate).
+      rewrite X2 in Hsp. inversion Hsp; subst. same HR Hidx'.
+  - assert (X1 : has_bucket (s_committed ss) q = false).
+    { destruct (has_bucket (s_committed ss) q) eqn:Eh; [|reflexivity]. exfalso. apply (proj1 Hc1 eq_refl). reflexivity. }
+    rewrite X1 in Hsp. cbn [snd fst store_batch] in *. destruct (has_bucket c q); [discriminate|].
+    inversion Hsp; subst. split; [|reflexivity]. apply Hmk. exact Hidx'.
+Qed.
+
+(* ------------------------------------------------------------------ nested buckets: recursive deletion *)
+(* below the bucket [ns], fewer than [d] nesting levels exist in view [f] *)
+Definition shallow (f : view) (ns : list bytes) (d : nat) : Prop :=
+  forall ms, names_wf (ns ++ ms) -> chain f ns ms -> (length ms < d)%nat.
+Lemma chain_mono : forall (f f' : view) ms ns, (forall key, f' key <> None -> f key <> None) -> chain f' ns ms -> chain f ns ms.
+Proof.
+  intros f f' ms. induction ms as [|m ms IH]; intros ns H; cbn [chain]; [auto|].
+  intros [A B]. split; [apply H; exact A|apply IH; [exact H|exact B]].
+Qed.
+Lemma shrinks_keeps : forall ns (f f' : view) key, shrinks ns f f' -> f' key <> None -> f key <> None.
+Proof. intros ns f f' key H N. destruct (H key) as [E|[E _]]; congruence. Qed.
+
+(* deleteBucket answers nil whenever the model's recursion bound covers the subtree *)
+Lemma delete_rec_total : forall s, keys_sorted s -> store_ok s -> forall fuel b h ns, binv b -> hnd h ns -> (2 <= length ns)%nat ->
+  shallow (vw s b) ns fuel -> fst (delete_rec fuel s b h) = Ok tt.
+Proof.
+  intros s Hsorted Hs. induction fuel as [|fuel IH]; intros b h ns Hb Hh Hlen Hsh.
+  - exfalso. assert (X : (length (@nil bytes) < 0)%nat) by (apply Hsh; [rewrite app_nil_r; apply Hh|exact I]). cbn in X. lia.
+  - rewrite delete_rec_S. pose proof Hh as [Hns [Hp Hd]]. pose proof Hb as [Hwf Hidx].
+    assert (E1 : (h_depth h =? 1)%nat = false) by (apply Nat.eqb_neq; lia). rewrite E1.
+    destruct (bucket_names_exact s (Some b) h ns Hsorted Hs Hwf Hidx Hns Hp Hd) as [l [Hl [_ Hx]]]. rewrite Hl.
+    assert (Hf : forall l' b', (forall c, In c l' -> In c l) -> binv b' -> shrinks ns (vw s b) (vw s b') ->
+              exists bn, fold_left (del_step fuel s h) l' (Ok tt, b') = (Ok tt, bn)).
+    { induction l' as [|c l' IHl]; intros b' Hin Hb' Hs'; cbn [fold_left]; [eauto|].
+      cbn [del_step]. destruct (bucket s (Some b') h c) as [sub|] eqn:Eb.
+      - destruct (bucket_some_hnd s (Some b') h ns c sub Hs (proj2 Hb') Hh Eb) as [Hsub Hval].
+        assert (Ht : fst (delete_rec fuel s b' sub) = Ok tt).
+        { apply (IH b' sub (ns ++ [c])); auto.
+          - rewrite app_length. cbn. lia.
+          - intros ms Hw Hc.
+            assert (X : (length (c :: ms) < S fuel)%nat).
+            { apply Hsh; [rewrite <- app_assoc in Hw; exact Hw|]. cbn [chain]. split.
+              - assert (Hi : In c l) by (apply Hin; left; reflexivity). apply Hx in Hi. destruct Hi as [_ Hi]. exact Hi.
+              - eapply chain_mono; [|exact Hc]. intros key. apply (shrinks_keeps ns). exact Hs'. }
+            cbn [length] in X. lia. }
+        pose proof (binv_delete_rec fuel s b' sub Hb') as Hb1.
+        pose proof (delete_rec_shrinks s Hsorted Hs fuel b' sub (ns ++ [c]) Hb' Hsub) as Hsh1.
+        destruct (delete_rec fuel s b' sub) as [r1 b1]. cbn [fst snd] in *. subst r1.
+        apply IHl; auto; [intros c' Hc'; apply Hin; right; exact Hc'|].
+        eapply shrinks_trans; [exact Hs'|]. apply (shrinks_sub ns c). exact Hsh1.
+      - apply IHl; auto. intros c' Hc'. apply Hin. right. exact Hc'. }
+    destruct (Hf l b (fun c H => H) Hb (shrinks_refl _ _)) as [bn E]. rewrite E. reflexivity.
+Qed.
+Lemma delete_bucket_total : forall s b h ns n, keys_sorted s -> store_ok s -> binv b -> hnd h ns ->
+  shallow (vw s b) (ns ++ [n]) delete_fuel -> fst (delete_bucket s (Some b) h n) = Ok tt.
+Proof.
+  intros s b h ns n Hsorted Hs Hb Hh Hsh. unfold delete_bucket. destruct (bucket s (Some b) h n) as [sub|] eqn:Eb; [|reflexivity].
+  destruct (bucket_some_hnd s (Some b) h ns n sub Hs (proj2 Hb) Hh Eb) as [Hsub _].
+  assert (Hl : (2 <= length (ns ++ [n]))%nat).
+  { rewrite app_length. cbn. destruct Hh as [[Hne _] _]. destruct ns; [congruence|cbn; lia]. }
+  pose proof (delete_rec_total s Hsorted Hs delete_fuel b sub (ns ++ [n]) Hb Hsub Hl Hsh) as T.
+  destruct (delete_rec delete_fuel s b sub) as [r b']. exact T.
+Qed.
+
+(* the subtree of q disappears from the view: the content loses q and everything below it *)
+Lemma Rview_remove : forall (f f' : view) c q, Rview f c -> cclosed c -> q <> [] -> shrinks q f f' ->
+  (bkf f q -> forall ms key, names_wf (q ++ ms) -> node_key (q ++ ms) key -> chain f q ms -> f' key = None) ->
+  Rview f' (remove_tree c q).
+Proof.
+  intros f f' c q HV Hc Hq Hsh Hgone. pose proof HV as [R1 [R2 R3]]. pose proof Hc as [C1 C2].
+  assert (Hdead : forall ms key, has_bucket c (q ++ ms) = true -> node_key (q ++ ms) key -> f' key = None).
+  { intros ms key Hb Hk. assert (Hbq : has_bucket c q = true) by (apply (closed_prefix c Hc ms); auto).
+    apply R1 in Hbq. apply (Hgone (proj2 Hbq) ms key); auto.
+    - apply R1 in Hb. apply Hb.
+    - apply (closed_chain f c HV Hc); auto. }
+  split; [|split].
+  - intros p. rewrite has_bucket_remove. split.
+    + intros [Hb Hnp]. apply R1 in Hb. destruct Hb as [Hn Hbk]. split; [exact Hn|]. unfold bkf in *.
+      destruct (Hsh (index_key (path_of p))) as [E|[_ U]]; [rewrite E; exact Hbk|]. exfalso.
+      destruct (under_idx q p (names_ok_valid p Hn) U) as [r E]. subst p. rewrite is_prefix_app in Hnp. discriminate.
+    + intros [Hn Hbk']. assert (Hbk : bkf f p) by (unfold bkf in *; eapply shrinks_keeps; eauto).
+      assert (Hb : has_bucket c p = true) by (apply R1; auto). split; [exact Hb|].
+      destruct (is_prefix q p) eqn:Ep; [|reflexivity]. exfalso. apply is_prefix_iff in Ep. destruct Ep as [ms ->].
+      apply Hbk'. apply (Hdead ms); [exact Hb|left; reflexivity].
+  - intros p k Hn. rewrite entries_remove. destruct (is_prefix q p) eqn:Ep.
+    + apply is_prefix_iff in Ep. destruct Ep as [ms ->]. cbn [m_get]. symmetry. unfold kvf.
+      destruct (f (inner_key (path_of (q ++ ms)) k)) as [v|] eqn:Ef; [|eapply shrinks_none; eauto].
+      apply (Hdead ms); [|right; exists k; reflexivity]. apply C2. apply (m_get_nonempty k _ v). rewrite (R2 _ _ Hn). exact Ef.
+    + rewrite (R2 _ _ Hn). unfold kvf. destruct (Hsh (inner_key (path_of p) k)) as [E|[_ U]]; [symmetry; exact E|]. exfalso.
+      destruct (under_data q p k (names_ok_valid p Hn) U) as [r E]. subst p. rewrite is_prefix_app in Ep. discriminate.
+  - intros p. rewrite entries_remove. destruct (is_prefix q p); [constructor|apply R3].
+Qed.
+
+Lemma sim_delbucket : forall src name, sim_op' (ODelBucket src name).
+Proof.
+  intros src name st ss ss' r HR Hinv Hob Hsp. pose proof HR as [Hidx _].
+  pose proof (step_idx_inv true st _ Hidx Hob) as Hidx'. unfold step in *. cbn [spec_step] in Hsp. unfold step_gen in *.
+  cbn [op_bytes] in Hob. pose proof (slot_sim st ss src HR) as Hs.
+  destruct (slot_view true st src) as [[[[w h] vs] ob]|]; destruct (s_slot ss src) as [[[w' p] c]|] eqn:Eslot; try contradiction;
+    [|inversion Hsp; subst; split; [exact HR|reflexivity]].
+  destruct Hs as [<- [Hh [HV [Hsort [Hok [Hwf [Hbok Hw]]]]]]]. destruct w.
+  2:{ subst ob. cbn [delete_bucket store_batch fst snd res_of_unit] in *. inversion Hsp; subst. split; [exact HR|reflexivity]. }
+  destruct Hw as [-> [b [-> [Ewtx Epend]]]]. cbn [view_store] in HV. pose proof Hh as [Hn [Hpath Hdep]].
+  assert (Hne : st_wtx st <> None) by congruence.
+  assert (Hc : cclosed c) by (destruct Hinv as [_ [Hi _]]; rewrite Epend in Hi; exact Hi).
+  destruct (delete_fuel <=? height c (p ++ [name]))%nat eqn:Eh; [discriminate|]. apply Nat.leb_gt in Eh. inversion Hsp; subst ss' r. clear Hsp.
+  cbn [obwf obatch_ok] in Hwf, Hbok. assert (Hb : binv b) by (split; assumption).
+  assert (Hq : p ++ [name] <> []) by (destruct p; discriminate).
+  assert (Htot : fst (delete_bucket (st_store st) (Some b) h name) = Ok tt).
+  { apply (delete_bucket_total _ b h p name Hsort Hok Hb Hh). intros ms Hw Hch.
+    destruct ms as [|m ms]; [cbn; unfold delete_fuel; lia|].
+    assert (Hbk : has_bucket c ((p ++ [name]) ++ m :: ms) = true).
+    { apply HV. split; [split; [destruct p; discriminate|exact Hw]|].
+      (* the last bucket of the chain exists *)
+      clear - Hch. revert Hch. generalize (p ++ [name]). revert m. induction ms as [|m' ms IH]; intros m q [A B].
+      - exact A.
+      - replace (q ++ m :: m' :: ms) with ((q ++ [m]) ++ m' :: ms) by (rewrite <- app_assoc; reflexivity). apply IH. exact B. }
+    apply height_ge in Hbk. lia. }
+  assert (Hshape : exists b', delete_bucket (st_store st) (Some b) h name = (Ok tt, Some b')).
+  { unfold delete_bucket in *. destruct (bucket (st_store st) (Some b) h name) as [sub|]; [|eauto].
+    destruct (delete_rec delete_fuel (st_store st) b sub) as [r1 b1]. cbn [fst] in Htot. subst r1. eauto. }
+  destruct Hshape as [b' Ed]. rewrite Ed in *. cbn [store_batch fst snd res_of_unit] in *. split; [|reflexivity].
+  apply R_write; auto.
+  destruct (delete_bucket_effect (st_store st) b h p name (Ok tt) b' Hsort Hok Hb Hh Ed) as [Hsh Hgone].
+  apply (Rview_remove (vw (st_store st) b) _ c (p ++ [name])); auto. apply Hgone. reflexivity.
+Qed.
+
+(* ------------------------------------------------------------------ bucket listings *)
+Lemma names_sim : forall vs ob c p l, store_ok vs -> obatch_ok ob -> Rview (sget (view_store vs ob)) c -> (p = [] \/ names_ok p) ->
+  NoDup l -> (forall name, In name l <-> child_exists (view_store vs ob) p name) -> Permutation l (children c p).
+Proof.
+  intros vs ob c p l Hok Hbok [R1 _] Hp Hnd Hx. apply NoDup_Permutation; [exact Hnd|apply dedup_nodup|].
+  intros n. rewrite Hx, children_iff, R1. unfold child_exists, bkf, sget. split.
+  - intros [Hv Hs]. split; [|exact Hs].
+    assert (Hbn : bytes_ok n).
+    { destruct (s_get (index_key (path_of (p ++ [n]))) (view_store vs ob)) as [v|] eqn:E; [|congruence].
+      apply (index_key_name_bytes p n). eapply entry_ok_bytes. eapply store_ok_get; [|exact E]. apply view_store_ok; auto. }
+    destruct Hp as [->|Hp]; [apply names_ok_one; auto|apply names_ok_snoc; auto; apply Hp].
+  - intros [[_ [Hv _]] Hs]. split; [|exact Hs]. apply Forall_app in Hv. destruct Hv as [_ Hv]. inversion Hv; auto.
+Qed.
+Lemma sim_names : forall src, sim_op (ONames src).
+Proof.
+  intros src st ss ss' r HR Hob Hsp. unfold step in *. cbn [spec_step] in Hsp. unfold step_gen in *.
+  pose proof (slot_sim st ss src HR) as Hs.
+  destruct (slot_view true st src) as [[[[w h] vs] ob]|]; destruct (s_slot ss src) as [[[w' p] c]|]; try contradiction;
+    [|inversion Hsp; subst; split; [exact HR|reflexivity]].
+  destruct Hs as [<- [Hh [HV [Hsort [Hok [Hwf [Hbok Hw]]]]]]]. destruct Hh as [Hn [Hp Hd]]. inversion Hsp; subst ss' r.
+  destruct (bucket_names_exact vs ob h p Hsort Hok Hwf Hbok Hn Hp Hd) as [l [Hl [Hnd Hx]]]. rewrite Hl. cbn [fst snd].
+  split; [exact HR|]. cbn [res_equiv]. apply (names_sim vs ob c p l); auto.
+Qed.
+Lemma sim_txnames : forall w, sim_op (OTxNames w).
+Proof.
+  intros w st ss ss' r HR Hob Hsp. unfold step in *. cbn [spec_step] in Hsp. unfold step_gen in *.
+  pose proof (tx_sim st ss w HR) as Ht.
+  destruct (tx_view true st w) as [[vs ob]|]; destruct (s_view ss w) as [c|]; try contradiction;
+    [|inversion Hsp; subst; split; [exact HR|reflexivity]].
+  destruct Ht as [HV [Hsort [Hok [Hwf [Hbok Hw]]]]]. inversion Hsp; subst ss' r.
+  destruct (tx_bucket_names_exact vs ob Hsort Hok Hwf Hbok) as [l [Hl [Hnd Hx]]]. rewrite Hl. cbn [fst snd].
+  split; [exact HR|]. cbn [res_equiv]. apply (names_sim vs ob c [] l); auto.
+Qed.
+
+(* ------------------------------------------------------------------ the dump *)
+Lemma filter_all {A} : forall (l : list (bytes * A)), filter (fun e => has_prefix [] (fst e)) l = l.
+Proof. induction l as [|a l IH]; [reflexivity|]. cbn [filter]. change (has_prefix [] (fst a)) with true. cbv iota. f_equal. exact IH. Qed.
+Lemma pfx_perm : forall vs ob h q c pre, keys_sorted vs -> store_ok vs -> obwf ob -> hnd h q -> bytes_ok pre ->
+  Rview (sget (view_store vs ob)) c ->
+  Permutation (get_by_prefix vs ob h pre) (filter (fun e => has_prefix pre (fst e)) (entries c q)).
+Proof.
+  intros vs ob h q c pre Hsort Hok Hwf Hh Hpre [_ [R2 R3]]. pose proof Hh as [Hn [Hpath _]].
+  assert (Hb : keys_bytes vs) by (apply store_ok_keys_bytes; exact Hok).
+  assert (Hp : bytes_ok (h_path h)) by (eapply hnd_path_bytes; eauto).
+  assert (G : exists b, batch_wf b /\ get_by_prefix vs ob h pre = get_by_prefix vs (Some b) h pre /\
+                        forall key, s_get key (view_store vs ob) = s_get key (apply_log vs (b_log b))).
+  { destruct ob as [b|]; [exists b; auto|]. exists empty_batch. split; [apply batch_wf_empty|]. split; [apply gbp_none|reflexivity]. }
+  destruct G as [b [Hwfb [-> Hv]]].
+  apply NoDup_Permutation.
+  - eapply NoDup_map_inv. apply get_by_prefix_nodup; auto.
+  - eapply NoDup_map_inv. apply sorted_nodup_keys. apply (@filter_sorted bytes). apply R3.
+  - intros [k' v]. rewrite (read_your_writes_prefix vs b h pre Hsort Hb Hwfb Hp Hpre k' v).
+    rewrite filter_In. cbn [fst]. rewrite (sorted_get_in _ k' v (R3 q)), (R2 q _ Hn). unfold kvf, sget. rewrite Hv, Hpath. tauto.
+Qed.
+
+Section Dump.
+  Variable s : store.
+  Variable c : content.
+  Hypothesis Hsort : keys_sorted s.
+  Hypothesis Hok : store_ok s.
+  Hypothesis HV : Rview (sget s) c.
+
+  Lemma dump_rec_sim : forall fuel h p, hnd h p -> dump_equiv (dump_rec fuel s h) (sdump_rec fuel c p).
+  Proof.
+    induction fuel as [|fuel IH]; intros h p Hh; cbn [dump_rec sdump_rec]; [apply dump_equiv_refl|].
+    pose proof Hh as [Hn [Hp Hd]].
+    destruct (bucket_names_exact s None h p Hsort Hok I I Hn Hp Hd) as [l [Hl [Hnd Hx]]]. rewrite Hl.
+    apply dump_equiv_cons.
+    - split; cbn [fst snd]; [exact Hp|]. rewrite <- (filter_all (entries c p)).
+      apply (pfx_perm s None h p c []); auto; [exact I|constructor].
+    - apply dump_equiv_flat_map; [apply (names_sim s None c p l); auto; exact I|].
+      intros n Hin. destruct (bucket s None h n) as [sub|] eqn:Eb.
+      + destruct (bucket_some_hnd s None h p n sub Hok I Hh Eb) as [Hsub _]. apply IH. exact Hsub.
+      + exfalso. apply (listed_child_opens s None h p n I Hn Hp Hd); [apply Hx; exact Hin|exact Eb].
+  Qed.
+  Lemma dump_sim : dump_equiv (dump s) (sdump c).
+  Proof.
+    unfold dump, sdump. destruct (tx_bucket_names_exact s None Hsort Hok I I) as [l [Hl [Hnd Hx]]]. rewrite Hl.
+    assert (HP : Permutation l (children c [])) by (apply (names_sim s None c [] l); auto; exact I).
+    apply dump_equiv_flat_map; [exact HP|]. intros n Hin.
+    assert (Hn : names_ok [n]).
+    { apply (Permutation_in _ HP) in Hin. apply children_iff in Hin. apply HV in Hin. apply Hin. }
+    apply Hx in Hin. destruct Hin as [_ Hin]. cbn [app view_store] in Hin.
+    unfold top_level_bucket. rewrite top_path_is_path_of. unfold bucket_exists.
+    destruct (s_get (index_key (path_of [n])) s); [|congruence].
+    apply dump_rec_sim. split; [exact Hn|split; reflexivity].
+  Qed.
+End Dump.
+
+Lemma sim_dump : sim_op ODump.
+Proof.
+  intros st ss ss' r HR Hob Hsp. pose proof HR as [[[Hsort _] [Hok _]] [Rc [Ro _]]]. unfold step in *. cbn [spec_step] in Hsp. unfold step_gen.
+  rewrite <- Ro in Hsp. destruct (st_open st); inversion Hsp; subst; (split; [exact HR|]); cbn [snd res_equiv].
+  - apply dump_sim; auto.
+  - apply dump_equiv_refl.
+Qed.
+
+(* the bucket a specified NewBucket creates is empty: no entries, no sub-buckets *)
+Lemma new_bucket_is_empty : forall c q, cclosed c -> has_bucket c q = false -> q <> [] ->
+  entries (add_bucket c q) q = [] /\ children (add_bucket c q) q = [].
+Proof.
+  intros c q [C1 C2] Hq Hne. split.
+  - rewrite entries_add. destruct (entries c q) eqn:E; [reflexivity|]. rewrite C2 in Hq; [discriminate|congruence].
+  - destruct (children (add_bucket c q) q) as [|n l] eqn:E; [reflexivity|]. exfalso.
+    assert (Hin : In n (children (add_bucket c q) q)) by (rewrite E; left; reflexivity).
+    apply children_iff in Hin. apply has_bucket_add in Hin. destruct Hin as [Hin|Hin].
+    + apply C1 in Hin; [congruence|exact Hne].
+    + apply (f_equal (@length bytes)) in Hin. rewrite app_length in Hin. cbn in Hin. lia.
+Qed.
+
+(* ------------------------------------------------------------------ the abstraction relation, with the specification's invariant *)
+Definition R (st : state) (ss : sstate) : Prop := R0 st ss /\ sinv ss.
+Lemma R_init' : R init_state spec_init.
+Proof. split; [exact R_init|exact sinv_init]. Qed.
+
 (* ------------------------------------------------------------------ one step, and every sequence *)
+Lemma step_sim0 : forall st ss o ss' r, R0 st ss -> sinv ss -> op_bytes o -> spec_step ss o = (ss', Spec r) ->
+  R0 (fst (step st o)) ss' /\ res_equiv (snd (step st o)) r.
+Proof.
+  intros st ss o ss' r HR Hinv Hob Hsp.
+  destruct o; try (cbn [spec_step] in Hsp; discriminate);
+    first [eapply sim_tx; eauto; exact I | eapply sim_top; eauto; exact I | eapply sim_write; eauto; exact I
+          | eapply sim_read; eauto; exact I | eapply sim_iter; eauto; exact I
+          | eapply sim_bucket; eauto | eapply sim_fetch; eauto | eapply sim_new; eauto | eapply sim_delbucket; eauto
+          | eapply sim_names; eauto | eapply sim_txnames; eauto | eapply sim_dump; eauto].
+Qed.
 Lemma step_sim : forall st ss o ss' r, R st ss -> op_bytes o -> spec_step ss o = (ss', Spec r) ->
   R (fst (step st o)) ss' /\ res_equiv (snd (step st o)) r.
 Proof.
-  intros st ss o ss' r HR Hob Hsp.
-  destruct o; try (cbn [spec_step] in Hsp; discriminate);
-    first [eapply sim_tx; eauto; exact I | eapply sim_top; eauto; exact I | eapply sim_write; eauto; exact I
-          | eapply sim_read; eauto; exact I | eapply sim_iter; eauto; exact I].
+  intros st ss o ss' r [HR Hinv] Hob Hsp. destruct (step_sim0 st ss o ss' r HR Hinv Hob Hsp) as [H1 H2].
+  split; [split; [exact H1|eapply spec_step_sinv; eauto]|exact H2].
 Qed.
 
 (* the outputs of the model along an operation sequence *)
@@ -859,11 +1447,11 @@ Theorem refines_abstract_map : forall ops, Forall op_bytes ops ->
              end) /\
   (spec_exec spec_init ops <> None -> length (spec_run spec_init ops) = length ops).
 Proof.
-  intros ops Hb. split; [apply (refines_from ops _ _ R_init Hb)|]. split.
+  intros ops Hb. split; [apply (refines_from ops _ _ R_init' Hb)|]. split.
   - intros n. destruct (spec_exec spec_init (firstn n ops)) as [ss'|] eqn:E; [|exact I].
     assert (Hb' : Forall op_bytes (firstn n ops)).
     { rewrite Forall_forall in *. intros x Hx. apply Hb. rewrite <- (firstn_skipn n ops). apply in_or_app. left. exact Hx. }
-    apply (proj2 (refines_from (firstn n ops) _ _ R_init Hb')). exact E.
+    apply (proj2 (refines_from (firstn n ops) _ _ R_init' Hb')). exact E.
   - generalize spec_init. induction ops as [|o ops IH]; intros ss H; [reflexivity|]. cbn [spec_exec spec_run] in *.
     destruct (spec_step ss o) as [ss1 [r|]]; [|congruence]. cbn [length]. f_equal. inversion Hb; subst. apply IH; auto.
 Qed.
@@ -893,3 +1481,22 @@ Definition ex_ref_outs (pfx_in_wtx : list (bytes * bytes)) : list res :=
    REntries [([107], [118]); ([109], [119]); ([122], [122])]].
 Lemma ex_ref_bytes : Forall op_bytes ex_ref_ops.
 Proof. unfold ex_ref_ops. repeat (apply Forall_cons; [cbn [op_bytes]; solve_bytes|]). apply Forall_nil. Qed.
+
+(* nested buckets: in one write transaction create a, a/b, a/bc (the name of one a prefix of the other's), put k in both, look
+   up a/b, list a, delete a/b, list a again, read a/bc's k (still there) and a/b's k through the stale handle (gone), look up
+   a/b (nil), list the top level, commit; close, reopen; a read transaction lists a, reads a/bc, looks up a/b (nil), fetches
+   a/bc by its handle; meanwhile a write transaction deletes the committed a/bc, creates it again (empty), lists a and is
+   rolled back, which the read transaction does not notice *)
+Definition ex_nest_ops : list op :=
+  [OBegin true; OCreateTop 0 [97]; ONew 1 0 [98]; ONew 2 0 [98; 99]; OPut 1 [107] [118]; OPut 2 [107] [119];
+   OBucket 3 0 [98]; ONames 0; ODelBucket 0 [98]; ONames 0; OGet 2 [107]; OGet 1 [107]; OBucket 3 0 [98]; OTxNames true; OCommit;
+   OClose; OReopen; OBegin false; OTop false 0 [97]; ONames 0; OBucket 1 0 [98; 99]; OGet 1 [107]; OBucket 2 0 [98];
+   OFetch false 3 1; OPfx 3 [];
+   OBegin true; OTop true 4 [97]; OBucket 5 4 [98; 99]; ODelBucket 4 [98; 99]; ONew 6 4 [98; 99]; OGet 6 [107]; ONames 4; ORollback;
+   OGet 1 [107]; OREnd].
+Definition ex_nest_outs (first_listing : list bytes) : list res :=
+  [ROk; ROk; ROk; ROk; ROk; ROk; ROk; RNames first_listing; ROk; RNames [[98; 99]]; RVal [119]; RNil; RNil; RNames [[97]]; ROk;
+   ROk; ROk; ROk; ROk; RNames [[98; 99]]; ROk; RVal [119]; RNil; ROk; REntries [([107], [119])];
+   ROk; ROk; ROk; ROk; ROk; RNil; RNames [[98; 99]]; ROk; RVal [119]; ROk].
+Lemma ex_nest_bytes : Forall op_bytes ex_nest_ops.
+Proof. unfold ex_nest_ops. repeat (apply Forall_cons; [cbn [op_bytes]; solve_bytes|]). apply Forall_nil. Qed.
